@@ -217,4 +217,91 @@ theorem PackHeader.decode_encode (h : PackHeader) (hw : h.WF)
     Nat.mod_eq_of_lt hfl]
   simp [leNat_leBytes_of_lt _ 8 (h256 ▸ hps), leNat_leBytes_of_lt _ 8 (h256 ▸ hcp), hv1, hv2]
 
+/-! ### PackInfo -/
+
+theorem PackInfo.encodeFixed_length (p : PackInfo) (hw : p.WF) : p.encodeFixed.length = 38 := by
+  obtain ⟨hul, -⟩ := hw
+  simp [PackInfo.encodeFixed, leBytes_length, sizedOffsetEncode_length, hul]
+
+theorem encodeLocation_length (loc : Bytes) (h : loc.length ≤ Consts.locationPad) :
+    (encodeLocation loc).length = 214 := by
+  simp only [Consts.locationPad] at h
+  simp [encodeLocation, zeros_length, Consts.locationPad]
+  omega
+
+theorem PackInfo.encode_length (p : PackInfo) (hw : p.WF) : p.encode.length = 252 := by
+  simp [PackInfo.encode, PackInfo.encodeFixed_length p hw, encodeLocation_length _ hw.2.2.2.2.2.2.2]
+
+theorem PackInfo.decode_encode (p : PackInfo) (hw : p.WF) : PackInfo.decode p.encode = .ok p := by
+  have hlen := PackInfo.encode_length p hw
+  obtain ⟨uuid, ps, ⟨co, cs⟩, pid, kind, group, fid, loc⟩ := p
+  obtain ⟨hul, hps, hco, hcs, hpid, hgr, hfid, hloc⟩ := hw
+  simp only [Consts.locationPad] at hul hps hco hcs hpid hgr hfid hloc
+  have e : PackInfo.encode ⟨uuid, ps, (co, cs), pid, kind, group, fid, loc⟩ =
+      uuid ++ (leBytes ps 8 ++ (sizedOffsetEncode co cs ++ (leBytes pid 2 ++
+      ([kind.byte, UInt8.ofNat group] ++ (leBytes fid 2 ++ ([UInt8.ofNat loc.length] ++
+      (loc ++ zeros (213 - loc.length)))))))) := by
+    simp [PackInfo.encode, PackInfo.encodeFixed, encodeLocation, Consts.locationPad]
+  rw [e] at hlen ⊢
+  generalize hbs : (uuid ++ (leBytes ps 8 ++ (sizedOffsetEncode co cs ++ (leBytes pid 2 ++
+      ([kind.byte, UInt8.ofNat group] ++ (leBytes fid 2 ++ ([UInt8.ofNat loc.length] ++
+      (loc ++ zeros (213 - loc.length))))))))) = bs at hlen ⊢
+  have h34 : bs.getD 34 0 = kind.byte := by
+    subst hbs; seg_simp [hul]
+    simp only [List.cons_append, List.getD_cons_zero, List.getD_cons_succ]
+  have h35 : bs.getD 35 0 = UInt8.ofNat group := by
+    subst hbs; seg_simp [hul]
+    simp only [List.cons_append, List.getD_cons_zero, List.getD_cons_succ]
+  have h38 : bs.getD 38 0 = UInt8.ofNat loc.length := by
+    subst hbs; seg_simp [hul]
+    simp only [List.cons_append, List.getD_cons_zero, List.getD_cons_succ]
+  have huu : slice bs 0 16 = uuid := by subst hbs; seg_simp [hul]
+  have hp : slice bs 16 8 = leBytes ps 8 := by subst hbs; seg_simp [hul]
+  have hc : slice bs 24 8 = sizedOffsetEncode co cs := by subst hbs; seg_simp [hul]
+  have hpi : slice bs 32 2 = leBytes pid 2 := by subst hbs; seg_simp [hul]
+  have hf : slice bs 36 2 = leBytes fid 2 := by subst hbs; seg_simp [hul]
+  have hl : slice bs 39 loc.length = loc := by subst hbs; seg_simp [hul]
+  have h8 : (256 : Nat) ^ 8 = 2 ^ 64 := by decide
+  have h2 : (256 : Nat) ^ 2 = 2 ^ 16 := by decide
+  have hll : loc.length % 256 = loc.length := by omega
+  have hnp : ¬ loc.length > Consts.locationSkip := by simp only [Consts.locationSkip]; omega
+  simp only [PackInfo.decode, hlen, h34, h35, h38, PackKind.ofByte_byte, toNat_ofNat_u8, hll,
+    huu, hp, hc, hpi, hf, hl, Nat.mod_eq_of_lt hgr, sizedOffset_roundtrip co cs hco hcs,
+    leNat_leBytes_of_lt _ 8 (h8 ▸ hps), leNat_leBytes_of_lt _ 2 (h2 ▸ hpid),
+    leNat_leBytes_of_lt _ 2 (h2 ▸ hfid)]
+  simp [hnp]
+
+/-! ### CheckInfo / ManifestHeader -/
+
+theorem CheckInfo.decode_encode (c : CheckInfo) (h : ∀ x, c = .blake3 x → x.length = 32) :
+    CheckInfo.decode c.encode = .ok c := by
+  cases c with
+  | none => simp [CheckInfo.encode, CheckInfo.decode]
+  | blake3 x =>
+    have hx := h x rfl
+    simp [CheckInfo.encode, CheckInfo.decode, hx, List.take_of_length_le (Nat.le_of_eq hx)]
+
+theorem ManifestHeader.encode_length (m : ManifestHeader) (h4 : m.freeData.length = 24) :
+    m.encode.length = 60 := by
+  simp [ManifestHeader.encode, leBytes_length, sizedOffsetEncode_length, zeros_length, h4]
+
+theorem ManifestHeader.decode_encode (m : ManifestHeader) (h1 : m.packCount < 2 ^ 16)
+    (h2 : m.valueStore.1 < 2 ^ 48) (h3 : m.valueStore.2 < 2 ^ 16) (h4 : m.freeData.length = 24) :
+    ManifestHeader.decode m.encode = .ok m := by
+  have hlen := ManifestHeader.encode_length m h4
+  obtain ⟨pc, ⟨vo, vs⟩, fd⟩ := m
+  simp only at h1 h2 h3 h4
+  have e : ManifestHeader.encode ⟨pc, (vo, vs), fd⟩ =
+      leBytes pc 2 ++ (sizedOffsetEncode vo vs ++ (zeros 26 ++ fd)) := by
+    simp [ManifestHeader.encode]
+  rw [e] at hlen ⊢
+  generalize hbs : (leBytes pc 2 ++ (sizedOffsetEncode vo vs ++ (zeros 26 ++ fd))) = bs at hlen ⊢
+  have hp : slice bs 0 2 = leBytes pc 2 := by subst hbs; seg_simp [h4]
+  have hv : slice bs 2 8 = sizedOffsetEncode vo vs := by subst hbs; seg_simp [h4]
+  have hf : slice bs 36 24 = fd := by subst hbs; seg_simp [h4]
+  have h16 : (256 : Nat) ^ 2 = 2 ^ 16 := by decide
+  simp only [ManifestHeader.decode, hlen, hp, hv, hf, sizedOffset_roundtrip vo vs h2 h3,
+    leNat_leBytes_of_lt _ 2 (h16 ▸ h1)]
+  simp
+
 end Jubako
